@@ -581,7 +581,12 @@ Section Assign.
     - exact saturated.
   Qed.
 
-  (* score separation + saturation: the true matching is the UNIQUE optimum *)
+  (* score separation + saturation: the true matching is the UNIQUE optimum.
+     Saturation is needed: "true >= mls > every cross pair" alone does not force the true pairs
+     into the optimum, because the assignment has the forced size min(n, m).  With sources
+     {A, y}, destinations {A, x} (y, x lonely parts of two other animals), mls = 1/4 and scores
+     A->A = 3/10, A->x = y->A = 6/25, y->x = -3/2, the cross assignment {A->x, y->A} (total 12/25)
+     beats {A->A, y->x} (total -6/5): both of its pairs are then filtered and animal A is lost. *)
   Theorem saturated_unique_optimum M :
     optimal M -> forall e, In e M <-> In e true_pairs.
   Proof.
